@@ -56,6 +56,7 @@ Ok(e) == IF e.k = "wkbbig" THEN BigOk(e) ELSE IF e.k = "wkbhex" THEN HexOk(e) EL
       /\ e.decb.ok = 1 /\ e.decb.v = CanonDeep(e.g) /\ e.decb.srid = e.srid     \* one-shot byte decoder
       /\ e.decs.ok = 1 /\ e.decs.v = CanonDeep(e.g) /\ e.decs.srid = e.srid     \* streaming decoder
       /\ e.reenc = 1                                                     \* both results encode to these bytes again
+      /\ e.cross = 1                                                     \* EWKB bytes through the wkb package: the same geometry
       /\ \A i \in 1..Len(e.scans) : ScanOk(e, e.scans[i])                        \* scanner x destinations x framings
       /\ e.val = Enc(e.tab, e.g, e.defle = 1, e.srid)                           \* driver.Valuer: the package's default order
       /\ (e.pkg = "ewkb" => /\ e.valp = U32(e.psrid, TRUE) \o Enc(e.tab, e.g, e.defle = 1, 0)   \* prefix always little endian
